@@ -325,7 +325,7 @@ Proof. vm_compute. reflexivity. Qed.
 From TX Require Import Proofs.HybridLock.
 Lemma list_updates_repaired :
   forall (c : cfg) (k : kbytes) (w : world) (ts : list thread) (sched : list nat),
-  fix_incr c = true -> fix_setnx c = true -> fix_wb c = true -> fix_list c = true ->
+  fix_incr c = true -> fix_setnx c = true -> fix_wb c = true -> fix_list c = true -> exp_locked c = true ->
   w_spawned w = [] -> w_hist w = [] -> w_locks w k = false -> coherent GenTables c w k ->
   Forall (fun t => match t with
                    | TCaller cl => cpc cl = PIdle /\ cur cl = None /\ held cl = false /\ faults cl = [] /\
@@ -336,19 +336,19 @@ Lemma list_updates_repaired :
     linearized (visible GenTables c w k) (w_hist (fst r)) st /\
     (w_locks (fst r) k = false -> visible GenTables c (fst r) k = st).
 Proof.
-  intros c k w ts sched Hi Hn Hw Hl Hs Hh HL Hco Hts.
+  intros c k w ts sched Hi Hn Hw Hl He Hs Hh HL Hco Hts.
   assert (Hts' : Forall (idle_thread GenTables c k) ts).
   { apply Forall_forall. intros t Ht. rewrite Forall_forall in Hts. specialize (Hts t Ht). destruct t as [cl|]; cbn in *; [|exact I].
     destruct Hts as (A & B & C & D & E). repeat split; auto.
     apply Forall_forall. intros o Ho. rewrite Forall_forall in E. destruct (E o Ho) as [E1 E2]. split; [exact E1|].
     intros _. destruct o; cbn in E2 |- *; congruence. }
-  destruct (lock_all_schedules_spec GenTables c Hi Hn Hw Hl k w ts sched Hs Hh HL Hco Hts') as (st & H1 & H2 & _).
+  destruct (lock_all_schedules_spec GenTables c Hi Hn Hw Hl He k w ts sched Hs Hh HL Hco Hts') as (st & H1 & H2 & _).
   exists st. split; [exact H1|]. intros EL. exact (proj1 (H2 EL)).
 Qed.
 
 Lemma premises_ok :
   Forall (idle_thread GenTables (cfg_rep true true) k_cmap)
-         [TCaller (init_caller 0 [OGet k_cmap; OAppend k_cmap 8; ODel k_cmap] []); TCaller (init_caller 1 [OSet k_cmap (VList [1%N]); ORemove k_cmap 8] []); TWb 0 false] /\
+         [TCaller (init_caller 0 [OGet k_cmap; OAppend k_cmap 8; ODel k_cmap] []); TCaller (init_caller 1 [OSet k_cmap (VList [1%N]); ORemove k_cmap 8; OSetExp k_cmap] []); TWb 0 false] /\
   coherent GenTables (cfg_rep true true) w_cold_list k_cmap /\
   two_tier GenTables cfg_local k_temp = false /\
   Forall (thread1_ok k_temp) [TCaller (init_caller 0 [OSet k_temp (VStr 1); OGet k_temp; OIncr k_temp] []); TCaller (init_caller 1 [ODel k_temp; OSetNX k_temp (VStr 2)] []); TWb 0 false] /\
@@ -425,4 +425,26 @@ Fixpoint mdrop_ok (c : cfg) (k : kbytes) (m : mworld) (steps : list mstep) (late
   end.
 Lemma cross_node_cache_loss_small_scope :
   forallb (fun ck => forallb (fun h => mdrop_ok (fst ck) (snd ck) m_empty h None true true) (mdseqs 4 (mdrop_alphabet (snd ck)))) all_cases_r = true.
+Proof. vm_compute. reflexivity. Qed.
+
+(* ---- SetExpiration (read the cached value, write it back with the new TTL) ---- *)
+(* variant in which SetExpiration reads the cache BEFORE taking the key lock: it reads v1, a Set(v2) completes on both tiers, it writes v1
+   back into the cache; the following Get returns v1 while the persistent tier holds v2 *)
+Definition cfg_exp_unlocked : cfg :=
+  {| has_shared := false; en_pers := true; fix_incr := true; fix_setnx := true; fix_wb := true; fix_list := true; fix_cwf := true; fix_cre := true; exp_locked := false |}.
+Definition w_warm_user : world := nth 2 (seq_inits (cfg_rep false true) k_user) (init_world empty_store empty_store empty_store).
+Lemma setexp_read_before_lock_witness :
+  exists sched,
+    let r := hrun GenTables cfg_exp_unlocked w_warm_user
+               [TCaller (init_caller 0 [OSetExp k_user] []); TCaller (init_caller 1 [OSet k_user (VStr 2)] []); TCaller (init_caller 2 [OGet k_user] [])] sched in
+    w_hist (fst r) = [(2, OGet k_user, RVal (VStr 9)); (0, OSetExp k_user, ROk); (1, OSet k_user (VStr 2), ROk)] /\
+    tget (fst r) TPers k_user = Some (VStr 2).
+Proof. exists [0; 1; 1; 1; 0; 0; 2]. vm_compute. split; reflexivity. Qed.
+(* the same schedule on the shipped code (lock held from the read to the write): Set(v2) waits for SetExpiration or the other way round;
+   at the end the cache tier and the persistent tier both hold v2 *)
+Lemma setexp_locked_same_schedule :
+  let r := hrun GenTables (cfg_rep false true) w_warm_user
+             [TCaller (init_caller 0 [OSetExp k_user] []); TCaller (init_caller 1 [OSet k_user (VStr 2)] []); TCaller (init_caller 2 [OGet k_user] [])]
+             [0; 1; 1; 1; 0; 0; 2; 1; 1; 1; 2] in
+  (tget (fst r) TLocal k_user, tget (fst r) TPers k_user) = (Some (VStr 2), Some (VStr 2)).
 Proof. vm_compute. reflexivity. Qed.
